@@ -194,7 +194,9 @@ void for_each_n(TaskSetT& tasks, Iter start, size_t n, F&& f, ForEachOptions opt
   // 0 indicates serial execution per API spec
   int32_t maxThreads = std::max<int32_t>(options.maxThreads, 1);
 
-  ssize_t numThreads = std::min<ssize_t>(tasks.numPoolThreads() + options.wait, maxThreads);
+  // At least one chunk: a zero-thread pool without wait would otherwise yield zero chunks.
+  ssize_t numThreads = std::max<ssize_t>(
+      1, std::min<ssize_t>(tasks.numPoolThreads() + options.wait, maxThreads));
   // Reduce threads used if they exceed work to be done.
   numThreads = std::min<ssize_t>(numThreads, n);
 
